@@ -201,7 +201,7 @@ def check_file(shard, text, meta, rng, exhaustive=False, html=False, only_mode=N
         if meta['has_data'] and binimg is not None:
             rb2, bind = run_bin(shard, 'c04.skool', bin_argv, True)
             if rb2.exc:
-                shard.violation('skool2bin -d %s crashed: %s\n%s' % (' '.join(bin_argv), rb2.exc, (rb2.tb or '')[-1200:]), rp)
+                shard.violation('skool2bin -d %s crashed: %s\n%s' % (' '.join(bin_argv), rb2.exc, (rb2.tb or '')[-1200:]), rp, classify_bin_crash(rb2, text))
                 bind = None
         # ---- option sets for this mode
         sets = [((None, None, False), ())]
@@ -282,7 +282,7 @@ def check_file(shard, text, meta, rng, exhaustive=False, html=False, only_mode=N
             if d:
                 ctx = context(img, d[0][0]) if isinstance(d[0][0], int) else ''
                 shard.violation('%s and skool2bin %s disagree at (address, skool2bin, skool2asm) %s\n%s'
-                                % (what, ' '.join(bin_argv), d, ctx), rpv, classify(meta, name, d))
+                                % (what, ' '.join(bin_argv), d, ctx), rpv, classify(shard, text, meta, strips, bin_argv, argv, mask))
             # ---- (iii) the snapshot the macros read (baseline run of the mode only)
             if n == 0 and not mov and bind is not None and parser is not None:
                 check_snapshot(shard, parser.snapshot, ra.out, bind, lo, hi, 'skool2asm ' + ' '.join(argv[1:]), 'skool2bin -d ' + ' '.join(bin_argv), rpv)
@@ -296,15 +296,63 @@ def check_file(shard, text, meta, rng, exhaustive=False, html=False, only_mode=N
         else:
             rb, bind = run_bin(shard, 'c04.skool', [], meta['has_data'])
             if rb.exc:
-                shard.violation('skool2bin crashed: %s\n%s' % (rb.exc, (rb.tb or '')[-1200:]), rp)
+                shard.violation('skool2bin crashed: %s\n%s' % (rb.exc, (rb.tb or '')[-1200:]), rp, classify_bin_crash(rb, text))
             elif bind is not None:
                 check_html(shard, text, meta, bind, lo, hi, rp, full=html)
     return decided
 
-def classify(meta, mode, diffs):
+F_KEEP_INSERT = 'C04-keep-reaches-inserted-instructions-in-skool2bin'
+
+def drop_keep_on_sub_lines(text):
+    """The file without the @keep directives that stand in front of a line which also carries @*sub/@*fix/@if directives."""
+    out = []
+    group = []
+    for l in text.split('\n'):
+        if l.startswith('@'):
+            group.append(l)
+            continue
+        if any(g.startswith(('@isub=', '@ssub=', '@rsub=', '@ofix=', '@bfix=', '@rfix=', '@if(')) for g in group):
+            group = [g for g in group if not g.startswith('@keep')]
+        out.extend(group)
+        group = []
+        out.append(l)
+    out.extend(group)
+    return '\n'.join(out)
+
+def classify(shard, text, meta, strips, bin_argv, asm_argv, mask):
+    """Mechanism predicate for a skool2asm/skool2bin disagreement: BinWriter hands the @keep of a line to every instruction
+    the line's @*sub/@*fix directives insert, SkoolParser only to the instruction in the line. Decided on the witness: the
+    two tools agree again once the @keep directives on such lines are deleted (which changes both tools' input equally)."""
+    if not meta.get('keep_insert') or 'keep' in strips:
+        return None
+    t2 = drop_keep_on_sub_lines(strip_text(text, strips) if strips else text)
+    harness.write_file('c04-nokeep.skool', t2)
+    rb, binimg = run_bin(shard, 'c04-nokeep.skool', bin_argv, False)
+    ra = harness.run_tool('skool2asm', asm_argv + ['c04-nokeep.skool'])
+    if binimg is None or not ra.ok:
+        return None
+    try:
+        img = al.load(ra.out, assemble)
+    except al.AsmRefused:
+        return None
+    if not img.failed and not diff_images(binimg[0], binimg[1], binimg[2], img, mask):
+        return F_KEEP_INSERT
     return None
 
 F_LABEL_NO_ADDRESS = 'C04-label-on-inserted-instruction-crashes-asmwriter'
+
+F_DATA_COLON = 'C04-data-directive-colon-in-comment'
+
+def classify_bin_crash(r, text):
+    """skool2bin -d dies in _relocate unpacking the result of parse_asm_data_directive: the text after the values of a
+    @defb/@defs/@defw directive (documented as ignored) contains a colon, so everything before it is taken for the address."""
+    if r.exc.startswith('TypeError') and harness.innermost_frame(r.tb) == ('skool2bin.py', '_relocate'):
+        for l in text.split('\n'):
+            if l.startswith(('@defb=', '@defs=', '@defw=')):
+                spec, sep, comment = l[6:].partition(' ; ')
+                if sep and ':' in comment:
+                    return F_DATA_COLON
+    return None
 
 def classify_crash(r, parser):
     """Mechanism predicates over the witness (the traceback and the parser the tool had built)."""
